@@ -69,6 +69,24 @@ func c06Gen(r *Rng, tier string, i int) Sx {
 		}
 		qs = append(qs, L(A(kind), S(m), S(g.probePath(t))))
 	}
+	if r.Chance(1, 6) {
+		// very long paths of the same length that differ in the middle only: one is served by a dynamic route (and cached, when
+		// caching is on), the other has no route of its own
+		d, a, b := rtLongTwin(r, false)
+		defs = append(defs, d)
+		hasCache := false
+		for _, o := range opts {
+			if o.Head() == "cache" {
+				hasCache = true
+			}
+		}
+		if !hasCache {
+			opts = append(opts, L(A("cache"), I(r.Range(1, 4))))
+		}
+		for _, m := range []string{"GET", "GET", "POST", "HEAD", "OPTIONS"} {
+			qs = append(qs, L(A(r.Pick([]string{"m", "s"})), S(m), S(a)), L(A(r.Pick([]string{"m", "s"})), S(m), S(b)))
+		}
+	}
 	// options are applied in the order listed: the order must not matter
 	for k := len(opts) - 1; k > 0; k-- {
 		j := r.Intn(k + 1)
@@ -383,4 +401,17 @@ func c14rLate(r *Rng, c Sx) Sx {
 		qs = append(append(append([]Sx{}, qs[:at]...), def), rest...)
 	}
 	return L(A("rt"), LS(opts), xs[2], LS(qs))
+}
+
+// rtLongTwin: a dynamic route and two request paths of the same (large) length that share a long head and a long tail. With
+// both=true both paths are served by the route (with different values), otherwise only the first one is
+func rtLongTwin(r *Rng, both bool) (def Sx, a, b string) {
+	n := r.Pick2([]int{70, 100, 130, 200, 300})
+	head := strings.Repeat("a", n/2)
+	tail := strings.Repeat("a", n-n/2-1)
+	mid := "9"
+	if both {
+		mid = "b"
+	}
+	return L(SL([]string{"GET", "DELETE"}), S("/lt/{v:[a-z]+}/end"), B(false)), "/lt/" + head + "a" + tail + "/end", "/lt/" + head + mid + tail + "/end"
 }
